@@ -52,6 +52,11 @@ class H1Model:
         return bool(el.attrs.get("in_H1"))
 
 
+import re
+
+_DSIDE = re.compile(r"^(D[\d,]+)\((.*)@([+-])\)$")
+
+
 def canon(t: T, continuous, opposite) -> T:
     """identify the two sides of continuous symbols; n@- = -n@+ for `opposite` symbols"""
     memo = {}
@@ -62,6 +67,10 @@ def canon(t: T, continuous, opposite) -> T:
             return r
         if x.op == "s":
             nm = x.args[0]
+            md = _DSIDE.match(nm)
+            if md:  # D(f@side) is D(f)@side: restriction commutes with differentiation
+                nm = f"{md.group(1)}({md.group(2)})@{md.group(3)}"
+                x = sym.sym(nm)
             base, _, side = nm.partition("@")
             root = base.split("[")[0]
             if root in continuous and side:
@@ -164,6 +173,13 @@ def run(ctx) -> Report:
         add("(fd*n[1])('-')*v('-')", P(negr(P(fd, idx(n, 1))), negr(v)))
         add("grad(fd)('+')[0]*v('-')", P(idx(pos(gfd), 0), negr(v)))
         add("(grad(fd)[1]*v)('-')", negr(P(idx(gfd, 1), v)))
+        # derivatives of continuous quantities are not continuous: the reference gradient of the coordinate field is
+        # the Jacobian of the cell on that side
+        rgx = cm["ReferenceGrad"](x)
+        add("reference_grad(x)('-')[0,1]*v('-')", P(idx(negr(rgx), 0, 1), negr(v)))
+        add("reference_grad(x)('+')[1,0]*v('-')", P(idx(pos(rgx), 1, 0), negr(v)))
+        add("(reference_grad(x)[0,0]*v)('+') + (reference_grad(x)[0,0]*v)('-')", S(pos(P(idx(rgx, 0, 0), v)), negr(P(idx(rgx, 0, 0), v))))
+        add("x('-')[0]*reference_grad(x)('-')[0,0]*v('+')", P(P(idx(negr(x), 0), idx(negr(rgx), 0, 0)), pos(v)))
         add("conditional(fc<c, v('+'), v('-'))", uflmodel.m_conditional(uflmodel.m_rel("<")(fc, c), pos(v), negr(v)))
         # invalid inputs
         add("v*fd   (no restriction in an interior facet integral)", P(v, fd), False)
@@ -175,7 +191,7 @@ def run(ctx) -> Report:
         add("grad(fd)[0]*v('+')   (gradient unrestricted)", P(idx(gfd, 0), pos(v)), False)
         return E
 
-    side_dependent_roots = {"v", "fd", "h", "n", "d0(fd)", "d1(fd)"}
+    side_dependent_roots = {"v", "fd", "h", "n", "d0(fd)", "d1(fd)", "D0(x", "D1(x"}
     independent_roots = {"c", "qw"}
     n_val = 0
     for gdim, tdim, degree, in_h1, label in ((2, 2, 1, True, "affine non-manifold"), (3, 2, 1, True, "affine manifold"), (2, 2, 2, True, "degree-2 mesh")):
